@@ -31,6 +31,12 @@ def tree_clf(ml=NAN, classes=(0, 1), seed=0):
     return SklearnClassifier(DecisionTreeClassifier(random_state=0), classes=list(classes), missing_label=ml, random_state=seed)
 
 
+def forest_clf(ml=NAN, classes=(0, 1), seed=0):
+    """alternative model: a tiny forest gives one-hot probabilities for most and fractions for a few candidates"""
+    from sklearn.ensemble import RandomForestClassifier
+    return SklearnClassifier(RandomForestClassifier(n_estimators=3, random_state=0), classes=list(classes), missing_label=ml, random_state=seed)
+
+
 def nb_clf(ml=NAN, classes=(0, 1), seed=0):
     return SklearnClassifier(GaussianNB(), classes=list(classes), missing_label=ml, random_state=seed)
 
@@ -112,6 +118,7 @@ ZOO = {
     "DropQuery": Z("clf", lambda s, ml: DropQuery(random_state=s, missing_label=ml, cluster_algo_dict=dict(KD)), clf_kw, rows=False),
     "Falcun": Z("clf", lambda s, ml: Falcun(random_state=s, missing_label=ml), clf_kw, sel="sampling"),
     "Falcun-tree": Z("clf", lambda s, ml: Falcun(random_state=s, missing_label=ml), lambda ml, cl, s: dict(clf=tree_clf(ml, cl, s)), sel="sampling"),
+    "Falcun-forest": Z("clf", lambda s, ml: Falcun(random_state=s, missing_label=ml), lambda ml, cl, s: dict(clf=forest_clf(ml, cl, s)), sel="sampling"),
     "US-margin-tree": Z("clf", lambda s, ml: UncertaintySampling(method="margin_sampling", random_state=s, missing_label=ml),
                         lambda ml, cl, s: dict(clf=tree_clf(ml, cl, s)), samplewise=(True, True), arbitrary_idx=True),
     "US-entropy-nb": Z("clf", lambda s, ml: UncertaintySampling(method="entropy", random_state=s, missing_label=ml),
